@@ -576,6 +576,20 @@ func runCase(c Case) (res simResult) {
 			if r := c.Site[u]; r == nil || (r.FailFirst == 0 && !(r.Kind == "status" && (retried(r.Status) || r.Challenge))) {
 				facet = "C08/pipeline"
 			}
+			if r := c.Site.Get(u); r != nil {
+				att, ok := fetchOutcome(r, c.Settings)
+				// a node that has been fetched but is not Completed: its fetch failed for good, or it answered with a redirect
+				// whose target was dropped (unacceptable or out of scope) - reached twice in one seed's tree
+				droppedTarget := ok && r.Kind == "redirect" && r.Status != 300 && (!acceptableURL(r.Loc) || excluded(r.Loc, c.Settings))
+				if (!ok || droppedTarget) && got[u] <= 2*att {
+					facet = "C08/pipeline"
+					if veriflib.FindingOpen(simKFFailedDup) {
+						veriflib.Excluded("C08/pipeline", "open finding "+simKFFailedDup)
+						continue
+					}
+					return fail(facet, "%s was requested %d time(s), at most %d expected: it had been fetched (fetch failed for good: %v; redirect whose target was dropped: %v), and the fetched node lost against a fresh duplicate of the same URL in the seed's tree, which was then fetched too", u, got[u], hi, !ok, droppedTarget)
+				}
+			}
 			return fail(facet, "%s was requested %d time(s), at most %d expected (max-retry %d, max-redirect %d, seencheck %v)", u, got[u], hi, c.Settings.MaxRetry, c.Settings.MaxRedirect, c.Settings.Seencheck)
 		}
 	}
@@ -891,6 +905,22 @@ func TestVerif_Sim_Pipeline(t *testing.T) {
 }
 
 // Strict reproduction: stop while paused.
+// simKFFailedDup: DedupeItems gives priority to a Completed node only; a node whose fetch Failed loses against a fresh
+// duplicate that comes earlier in the tree walk (a redirect chain ending on the same URL), and the URL is fetched again
+// by a second non-seed node of the same tree.
+const simKFFailedDup = "C08-failed-node-loses-to-fresh-duplicate"
+
+func TestVerifKF_Sim_FailedNodeRefetched(t *testing.T) {
+	c := Case{Settings: Settings{Workers: 1, MaxAssets: 1, MaxRedirect: 2, MaxRetry: 0, MaxHops: 0, Seencheck: false}, Site: Site{
+		"http://s2.example.com/p1":      {Kind: "html", Assets: []string{"http://s2.example.com/r6.dat", "http://s2.example.com/d3.json"}},
+		"http://s2.example.com/r6.dat":  {Kind: "redirect", Status: 301, Loc: "http://s2.example.com/r5.dat"},
+		"http://s2.example.com/r5.dat":  {Kind: "redirect", Status: 301, Loc: "http://s2.example.com/a4.png"},
+		"http://s2.example.com/d3.json": {Kind: "json", Assets: []string{"http://s2.example.com/a4.png"}},
+		"http://s2.example.com/a4.png":  {Kind: "bin", BodyErr: true},
+	}, Seeds: []SeedPlan{{ID: "seed-1", URL: "http://s2.example.com/p1", Host: "s2.example.com"}}}
+	propSim(t, t, c, nil)
+}
+
 // simKF403: archive() reports a 403 to the rate limiter as a success (only 5xx, 408, 425 and 429 take the failure branch).
 const simKF403 = "C13-403-not-reported-to-limiter"
 
